@@ -293,11 +293,8 @@ func oracleRm(c *Ctx) error {
 		stats.Label("rm:path-occupied-by-directory")
 		return nil // the state rules above were checked: in particular no untracked file was removed
 	}
+	stats.LabelIf(overlap, "rm:overlapping-args")
 	if c.Res.Exit != 0 {
-		if overlap {
-			stats.Label("rm:overlapping-args-failed")
-			return nil // repeated / overlapping arguments: a failure half-way is tolerated, the state rules above were checked
-		}
 		return fmt.Errorf("rm of tracked paths %q failed (exit %d): %s", args, c.Res.Exit, c.Res.Stderr+c.Res.Stdout)
 	}
 	for p := range named {
